@@ -44,7 +44,7 @@ def run(ctx):
         "model: coq/c16/C16Model.v is a hand transcription of avc/nalus.go, avc/avc.go (walkers), "
         "avc/annexb.go ConvertSampleToByteStream, hevc/hevc.go (walkers) after the fix: commits",
         "outcome classification by the harness parent: ok|err from the call, panic by recover, hang by wall clock "
-        "(2 s, confirmed with 6 s), overalloc by allocation counter > 64*len+256KiB or runtime out-of-memory abort",
+        "(2 s, confirmed with 6 s), overalloc by allocation counter > 512*len+1MiB or runtime out-of-memory abort",
     ]
     ctx.assumptions += ["Go int is 64 bit and len(sample) < 2^62 (positions cannot wrap)",
                         "allocation is counted in appended elements in the model; bytes are observed on the Go side only"]
@@ -109,7 +109,7 @@ def run(ctx):
     ctx.proof_violation_if_broken(pr, "c16 search: %d evaluations, no failing input" % ctx.notes.get("search_evaluations", 0))
     ctx.cov["rule"] = ("corr: outcome class (ok|err|panic|hang|overalloc) and value of the 15 modelled walkers on every generated "
                        "sample; distinct = distinct (function,input,arg,class,value) lines; search: every target must end in ok|err "
-                       "with allocation <= 64*len+256KiB inside the wall-clock budget, each call in a worker subprocess")
+                       "with allocation <= 512*len+1MiB inside the wall-clock budget, each call in a worker subprocess")
 
 
 def replay(ctx, path):
